@@ -144,10 +144,12 @@ class Gen:
         acc = eff()
         out = []
         for mk in makers:
+            nf = len(self.fns)
             for attempt in range(4):
                 node, e = mk()
                 if not par_conflict(acc, e):
                     break
+                del self.fns[nf:]     # a discarded candidate's definitions do not exist
             else:
                 node, e = self.lit()
             out.append(node)
@@ -204,10 +206,13 @@ class Gen:
             xs, e = self.par([lambda: self.int_expr(D)] * n)
             kw = []
             if rng.random() < 0.25:
+                nf = len(self.fns)
                 kwn, e2 = self.par([lambda: self.int_expr(D)])
                 if not par_conflict(e, e2):
                     kw = [["kw", kwn[0]]]
                     e = eff_join(e, e2)
+                else:
+                    del self.fns[nf:]
             nm = "if*" if (self.callee_ifstar and n == 2 and not kw and rng.random() < 0.3) else "F"
             return {"op": "F", "nm": nm, "k": self.k(), "args": xs, "kw": kw}, eff_join(e, eff(log=True))
         if kind == "if":
@@ -347,7 +352,7 @@ class Gen:
                 b, eb = self.int_expr(D)
                 c, ec = {"op": "cmp", "o": rng.choice(["<", "<=", "=", "!=", ">"]), "a": a, "b": b}, eff_join(ea, eb)
                 if par_conflict(ea, eb):
-                    c, ec = a, ea
+                    c, ec = a, ea      # (b is dropped; under `uncertain` it registered no function)
             else:
                 c, ec = self.any_expr(D)
             r = rng.random()
@@ -669,10 +674,12 @@ class Gen:
         ps, defs = self.params()
         body, ecall = self.fn_body(d, ps)
         nargs = self.rng.randint(len(ps) - len(defs), len(ps))
+        nf = len(self.fns)
         args, ea = self.par([lambda: self.int_expr(d)] * nargs)
         if par_conflict(ea, ecall) and ecall["j"]:
             args = [{"op": "lit", "v": 1} for _ in args]
             ea = eff()
+            del self.fns[nf:]
         return ({"op": "call", "f": {"op": "fn", "ps": ps, "defs": defs, "b": body}, "args": args},
                 eff_join(ea, ecall))
 
@@ -688,10 +695,12 @@ class Gen:
     def call_stored(self, d):
         name, np_, nd, ecall = self.rng.choice(self.fns)
         nargs = self.rng.randint(np_ - nd, np_)
+        nf = len(self.fns)
         args, ea = self.par([lambda: self.int_expr(d)] * nargs)
         if par_conflict(ea, ecall) and ecall["j"]:
             args = [{"op": "lit", "v": 1} for _ in args]
             ea = eff()
+            del self.fns[nf:]
         return ({"op": "call", "f": {"op": "var", "n": name}, "args": args},
                 eff_join(ea, ecall, eff(r=[name])))
 
